@@ -431,8 +431,8 @@ def dispOpen (hn : Str) : Option Str :=
   else if (dateKey hn).isSome then none
   else if isTitle hn then some (S "title") else (contentKey hn).map (·.1)
 
-/-- the stage-4 kinds -/
-def lgOk (kind : Str) : Bool := kind == S "link" || kind == S "guid"
+/-- the stage-4 / stage-5 kinds -/
+def lgOk (kind : Str) : Bool := kind == S "link" || kind == S "guid" || kind == S "category" || kind == S "enclosure"
 
 theorem startLG_isOk (o : Ops) (c : Core) (kind : Str) (a : List (Str × Str)) : (startLG o c kind a).isOk = lgOk kind := by
   unfold startLG lgOk
@@ -445,8 +445,14 @@ theorem startLG_isOk (o : Ops) (c : Core) (kind : Str) (a : List (Str × Str)) :
     · split <;> rfl
   · simp only [h1, Bool.false_eq_true, ↓reduceIte, Bool.false_or]
     by_cases h2 : (kind == S "guid") = true
-    · simp only [h2, ↓reduceIte]; rfl
-    · simp only [h2, Bool.false_eq_true, ↓reduceIte]; rfl
+    · simp only [h2, ↓reduceIte, Bool.true_or]; rfl
+    · simp only [h2, Bool.false_eq_true, ↓reduceIte, Bool.false_or]
+      by_cases h3 : (kind == S "category") = true
+      · simp only [h3, ↓reduceIte, Bool.true_or]; rfl
+      · simp only [h3, Bool.false_eq_true, ↓reduceIte, Bool.false_or]
+        by_cases h4 : (kind == S "enclosure") = true
+        · simp only [h4, ↓reduceIte]; rfl
+        · simp only [h4, Bool.false_eq_true, ↓reduceIte]; rfl
 
 theorem endLG_isOk (o : Ops) (s : MSt) (kind : Str) :
     (match endLG o s kind with | .ok _ => true | .unmodelled _ => false) = lgOk kind := by
@@ -455,8 +461,14 @@ theorem endLG_isOk (o : Ops) (s : MSt) (kind : Str) :
   · simp only [h1, ↓reduceIte, Bool.true_or]
   · simp only [h1, Bool.false_eq_true, ↓reduceIte, Bool.false_or]
     by_cases h2 : (kind == S "guid") = true
-    · simp only [h2, ↓reduceIte]
-    · simp only [h2, Bool.false_eq_true, ↓reduceIte]
+    · simp only [h2, ↓reduceIte, Bool.true_or]
+    · simp only [h2, Bool.false_eq_true, ↓reduceIte, Bool.false_or]
+      by_cases h3 : (kind == S "category") = true
+      · simp only [h3, ↓reduceIte, Bool.true_or]
+      · simp only [h3, Bool.false_eq_true, ↓reduceIte, Bool.false_or]
+        by_cases h4 : (kind == S "enclosure") = true
+        · simp only [h4, ↓reduceIte]
+        · simp only [h4, Bool.false_eq_true, ↓reduceIte]
 
 /-- one event of the version sub-machine; `none` = outside the model's domain -/
 def vStep (loose : Bool) (x : VX) : MEv → Option VX
@@ -809,7 +821,7 @@ theorem step_proj (o : Ops) (s : MSt) (e : MEv) :
     cases hlk : lgKind (hnV (proj s.c) tag) with
     | some kind =>
       -- stage 4: a link / guid end handler
-      obtain ⟨_, _, _, _, _, _, n2, n3, n4, n5⟩ := lgKind_facts _ kind hlk
+      obtain ⟨_, _, _, _, _, n2, n3, n4, n5⟩ := lgKind_facts _ kind hlk
       simp only [n2, n3, n4, n5, Bool.or_self, Bool.false_eq_true, ↓reduceIte, hpx]
       exact endLG_proj o s kind hc'
     | none =>
@@ -1416,5 +1428,103 @@ example :
      get "id" (mrun o start [.start (S "guid") [(S "isPermaLink", S "false")], .data (S "g3"), .stop (S "guid")]),
      get "link" (mrun o start [.start (S "guid") [(S "isPermaLink", S "false")], .data (S "g3"), .stop (S "guid")]))
     = (some (.s (S "http://b/|g1")), some (.b true), some (.s (S "http://b/|L")), some (.b false), some (.s (S "g3")), none) := by decide +kernel
+
+/-! ### tags and enclosures of an entry (M-mixin stage 5) -/
+
+/-- the term of a tag dict -/
+def termOf (t : List (Str × Option Str)) : Option Str := (t.find? (·.1 == S "term")).bind (·.2)
+
+theorem termOf_tagItem (a b c : Option Str) : termOf (tagItem a b c) = a := by
+  have : (S "term" == S "term") = true := by decide +kernel
+  simp [termOf, tagItem, this]
+
+theorem termOf_lset (t : List (Str × Option Str)) (v : Str) : termOf (lset t (S "term") (some v)) = some v := by
+  unfold termOf lset
+  by_cases h : t.any (·.1 == S "term") = true
+  · simp only [h, ↓reduceIte]
+    induction t with
+    | nil => simp at h
+    | cons p rest ih =>
+      simp only [List.map_cons, List.find?_cons]
+      by_cases hp : (p.1 == S "term") = true
+      · simp [hp]
+      · have hp' : (p.1 == S "term") = false := by simpa using hp
+        simp only [hp', Bool.false_eq_true, ↓reduceIte]
+        exact ih (by simpa [hp'] using h)
+  · simp only [h, Bool.false_eq_true, ↓reduceIte, List.find?_append]
+    have : t.find? (·.1 == S "term") = none := by
+      rw [List.find?_eq_none]; intro q hq
+      simp only [List.any_eq_true, not_exists, not_and] at h
+      exact h q hq
+    simp [this]
+
+theorem tags_ne : (S "tags" == S "tags") = true := by decide +kernel
+
+/-- **Every non-empty category text becomes the term of a tag** (`_end_category` + `_add_tag`): for every context dict whose `tags` is absent
+or the parser's own list, and every non-empty value, afterwards `tags` is a list that contains a tag whose term is that value — whether it
+filled the term-less tag the start handler made from `scheme` / `label`, was already there, or was appended. -/
+theorem category_text_is_a_term (d : D) (v : Str) (hv : v.isEmpty = false)
+    (hl : dget d (S "tags") = none ∨ ∃ items, dget d (S "tags") = some (.l items)) :
+    ∃ items', dget (endCategoryD d (some v)) (S "tags") = some (.l items') ∧ ∃ t ∈ items', termOf t = some v := by
+  have hadd : ∀ (d0 : D) (items : List (List (Str × Option Str))), dget d0 (S "tags") = some (.l items) →
+      ∃ items', dget (addTag d0 (some v) none none) (S "tags") = some (.l items') ∧ ∃ t ∈ items', termOf t = some v := by
+    intro d0 items h0
+    unfold addTag
+    simp only [h0, falsyO, hv, Bool.false_and, Bool.false_eq_true, ↓reduceIte]
+    by_cases hc : items.contains (tagItem (some v) none none) = true
+    · simp only [hc, ↓reduceIte]
+      exact ⟨items, h0, tagItem (some v) none none, by simpa using hc, termOf_tagItem _ _ _⟩
+    · simp only [hc, Bool.false_eq_true, ↓reduceIte]
+      exact ⟨_, dget_dset_same _ _ _, tagItem (some v) none none, by simp, termOf_tagItem _ _ _⟩
+  unfold endCategoryD
+  simp only [hv, Bool.false_eq_true, ↓reduceIte]
+  rcases hl with hl | ⟨items, hl⟩
+  · simp only [hl]
+    exact hadd _ [] (dget_dset_same _ _ _)
+  · simp only [hl]
+    by_cases hf : (!items.isEmpty && lastTermFalsy items) = true
+    · simp only [hf, ↓reduceIte]
+      cases hr : items.reverse with
+      | nil =>
+        have : items = [] := by simpa using hr
+        simp [this] at hf
+      | cons last before =>
+        simp only
+        exact ⟨_, dget_dset_same _ _ _, lset last (S "term") (some v), by simp, termOf_lset _ _⟩
+    · simp only [hf, Bool.false_eq_true, ↓reduceIte]
+      exact hadd d items hl
+
+/-- **An enclosure becomes a link with `rel="enclosure"`** whose href is the picked reference (url, uri or href — `_enforce_href`; NOT
+resolved by this handler), appended to `links` of the current context -/
+theorem enclosure_is_a_link (c : Core) (a : List (Str × Str)) (e0 : Entry) (es : List Entry)
+    (hin : c.inentry = true) (hen : c.entries = e0 :: es)
+    (hl : dget e0.d (S "links") = none ∨ ∃ items, dget e0.d (S "links") = some (.l items)) :
+    ∃ items, dget (contextD (startEnclosure c a)) (S "links") =
+      some (.l (items ++ [(sset (enforceHref a) (S "rel") (S "enclosure")).map fun kv => (kv.1, some kv.2)])) ∧
+      sget (sset (enforceHref a) (S "rel") (S "enclosure")) (S "rel") = some (S "enclosure") := by
+  have hctx : contextD c = e0.d := by unfold contextD; simp [hin, hen]
+  have hcp : ∀ d, contextD (putContext c d) = d := fun d => contextD_putContext _ d e0 es hin hen
+  unfold startEnclosure
+  simp only [hctx]
+  rcases hl with hl | ⟨items, hl⟩
+  · simp only [appendLink, hl, hcp]
+    exact ⟨[], by simpa using dget_dset_same _ _ _, sget_sset_same _ _ _⟩
+  · simp only [appendLink, hl, hcp]
+    exact ⟨items, dget_dset_same _ _ _, sget_sset_same _ _ _⟩
+
+/-- non-vacuity and the guard of the source fingerprints: categories with a domain, a duplicate, `dc:subject`, and an enclosure -/
+example :
+    let o : Ops := { base := ⟨fun _ r => r, fun u => u, fun b r => b ++ r⟩, join := fun b u => b ++ S "|" ++ u, fix := id, loose := false }
+    let start : MSt := { c := { entries := [{}], inentry := true, infeed := true, version := S "rss20", base := ⟨"http://b/", none, ["http://b/"], [none]⟩ } }
+    let get (k : String) (r : Outcome) : Option V := match r with | .ok s' => s'.c.entries.head?.bind fun e => dget e.d (S k) | .unmodelled _ => none
+    (get "tags" (mrun o start [.start (S "category") [(S "domain", S "d")], .data (S " News "), .stop (S "category"),
+                               .start (S "category") [], .data (S "News"), .stop (S "category"),
+                               .start (S "category") [], .data (S "News"), .stop (S "category"),
+                               .start (S "dc:subject") [], .data (S "Tech"), .stop (S "dc:subject")]),
+     get "links" (mrun o start [.start (S "enclosure") [(S "url", S "u.mp3"), (S "length", S "1"), (S "type", S "audio/mpeg")], .stop (S "enclosure")]))
+    = (some (.l [[(S "term", some (S "News")), (S "scheme", some (S "d")), (S "label", none)],
+                 [(S "term", some (S "News")), (S "scheme", none), (S "label", none)],
+                 [(S "term", some (S "Tech")), (S "scheme", none), (S "label", none)]]),
+       some (.l [[(S "length", some (S "1")), (S "type", some (S "audio/mpeg")), (S "href", some (S "u.mp3")), (S "rel", some (S "enclosure"))]])) := by decide +kernel
 
 end FeedVerif.Mixin
